@@ -187,7 +187,7 @@ structure Op where
 
 def parseOp (toks : List String) : Option Op :=
   match toks with
-  | "u" :: k :: fs :: fa :: "T" :: rest =>
+  | _ :: k :: fs :: fa :: "T" :: rest =>
     let cfgToks := [k, fs, fa]
     match parseTyT (rest.length + 1) rest with
     | some (ty, "I" :: r2) =>
@@ -279,24 +279,89 @@ def inputFeatures (c : Cfg) : Fields → Obj → List String
 def dedup (l : List String) : List String :=
   l.foldl (fun acc x => if acc.contains x then acc else acc ++ [x]) []
 
-def runLine (r : Report) (sec : Nat) (l : Line) : Report :=
-  match parseOp l.op with
-  | none => r.mismatch sec l.idx "bad-op" (joinSp l.op)
-  | some op => Id.run do
+/-- significant digits of the mantissa of a number literal (float64 carries 15 of them exactly) -/
+def sigDigits (s : Str) : Nat :=
+  ((dropWhileL (fun c => c = '0') ((s.takeWhile (fun c => c ≠ 'e' && c ≠ 'E')).filter isDigit))).length
+
+/-- the document a front end (YAML / TOML → JSON, conf's key lowering) hands on holds the values that were supplied:
+same structure, strings, bools and nulls, numbers with the same value (literals beyond 15 significant digits are rounded by
+the front ends' float64 and are not compared); `keyEq` compares object keys (conf lowers them) -/
+def docEquivF (keyEq : Str → Str → Bool) : Nat → J → J → Bool
+  | 0, _, _ => false
+  | fuel + 1, a, b =>
+    match a, b with
+    -- core/conf (toLowerCaseInterface) hands an empty array on as a nil slice, written `[ null ]` by the harness
+    | .arr [], .arr [.null] => true
+    | .null, .null => true
+    -- a number literal beyond the float64 range is not a number to YAML: it is handed on as the text it was
+    | .num x, .str y => x == y && (match parseFloat 64 x with | .error .overflow => true | _ => false)
+    | .bool x, .bool y => x == y
+    | .str x, .str y => x == y
+    | .num x, .num y =>
+      x == y || sigDigits x > 15 ||
+        (match floatSyntax x, floatSyntax y with
+         | .ok (.fin p), .ok (.fin q) => Dec.eqv p q
+         | _, _ => false)
+    | .arr x, .arr y => x.length == y.length && (x.zip y).all fun pq => docEquivF keyEq fuel pq.1 pq.2
+    | .obj x, .obj y =>
+      -- every binding handed on comes from a supplied binding with an equal key, and no supplied key is lost
+      (canonObj y).all (fun kv => (canonObj x).any fun kv' => keyEq kv'.1 kv.1 && docEquivF keyEq fuel kv'.2 kv.2)
+      && (canonObj x).all (fun kv' => (canonObj y).any fun kv => keyEq kv'.1 kv.1)
+    | _, _ => false
+
+def jSize : J → Nat
+  | .arr l => 1 + jSizeL l
+  | .obj m => 1 + jSizeO m
+  | _ => 1
+where
+  jSizeL : List J → Nat
+    | [] => 0
+    | j :: rest => jSize j + jSizeL rest
+  jSizeO : List (Str × J) → Nat
+    | [] => 0
+    | (_, j) :: rest => jSize j + jSizeO rest
+
+def docEquiv (keyEq : Str → Str → Bool) (a b : J) : Bool :=
+  docEquivF keyEq (jSize a + jSize b + 2) a b
+
+/-- core/conf hands the unmarshaller a document in which every key that names a field of the struct at that place
+(up to case) is written in lower case — otherwise the lower-casing unmarshaller cannot find it -/
+def confKeysLowered : Nat → Ty → J → Bool
+  | 0, _, _ => true
+  | fuel + 1, t, j =>
+    match t, j with
+    | .ptr t', _ => confKeysLowered fuel t' j
+    | .struct fs, .obj m =>
+      m.all fun kv =>
+        let rec go : Fields → Bool
+          | .nil => true
+          | .cons name tag ft rest =>
+            (match tag with
+             | some tv =>
+               match parseTag name tv with
+               | .ok (key, _) => if lower key = lower kv.1 then kv.1 = lower kv.1 && confKeysLowered fuel ft kv.2 else true
+               | .error _ => true
+             | none => true) && go rest
+        go fs
+    | .slice t', .arr l => l.all fun x => confKeysLowered fuel t' x
+    | .map t', .obj m => m.all fun kv => confKeysLowered fuel t' kv.2
+    | _, _ => true
+
+/-- one unmarshal of the document `doc` under `op.cfg` into `op.ty`, compared with the observation `obs` -/
+def runU (r : Report) (sec : Nat) (l : Line) (op : Op) (mode : String) (obs : List String) : Report := Id.run do
     let mut r := { r with ops := r.ops + 1 }
     let res := unmarshal op.cfg op.ty op.input
     r := r.addCover (resultLabel res)
-    r := r.addCover (if op.cfg.canonical then "mode-header" else if op.cfg.fromArray then "mode-form"
-                     else if op.cfg.fromString then "mode-fromstring" else "mode-json")
+    r := r.addCover mode
     for f in dedup (tyFeatures op.ty) do r := r.addCover f
     match op.ty, op.input with
     | .struct fs, .obj m => for f in dedup (inputFeatures op.cfg.repaired fs m) do r := r.addCover f
     | _, _ => r := r.addCover "in-toplevel-not-object"
-    let impl := joinSp l.obs
+    let impl := joinSp obs
     let cmpl := Spec.complete op.cfg op.ty op.input
     let outside := match res with | .error .outside => true | _ => false
     if outside then r := r.addCover "model-outside(panic-monitor-only)"
-    match l.obs with
+    match obs with
     | "ok" :: vt =>
       match parseValT (vt.length + 1) vt with
       | some (v, []) =>
@@ -332,31 +397,98 @@ def runLine (r : Report) (sec : Nat) (l : Line) : Report :=
     | _ => r := r.mismatch sec l.idx "unparsable-observation" impl
     return r
 
-/-! ### `p`: one request through `httpx.Parse`
-  p T { Name ty t:<key>|<tag value> … } P { k s:v … } F { k [ s:v … ] … } H { k [ s:v … ] … } B <json value | none> -/
+def cfgMode (c : Cfg) : String :=
+  if c.canonical then "mode-header" else if c.fromArray then "mode-form"
+  else if c.fromString then "mode-fromstring" else "mode-json"
+
+def runLine (r : Report) (sec : Nat) (l : Line) : Report :=
+  match parseOp l.op with
+  | none => r.mismatch sec l.idx "bad-op" (joinSp l.op)
+  | some op => runU r sec l op (cfgMode op.cfg) l.obs
+
+/-- `uy` / `ut`: the document written as YAML / TOML through `UnmarshalYamlBytes` / `UnmarshalTomlBytes`.  Observation:
+`D <the JSON document the front end produced | none> R <result>`.  Monitors: a panic; the produced document holds the
+supplied values (`docEquiv`); then every monitor of `u` on the produced document. -/
+def runFrontEnd (r : Report) (sec : Nat) (l : Line) (mode : String) (conf yaml : Bool) : Report :=
+  match parseOp l.op with
+  | none => r.mismatch sec l.idx "bad-op" (joinSp l.op)
+  | some op0 =>
+    -- core/conf: the JSON unmarshaler with WithCanonicalKeyFunc(strings.ToLower); the handed-on document has lowered keys
+    -- uy / ut: `fa=1` selects the Reader form of the front end, not WithFromArray
+    let reader := !conf && op0.cfg.fromArray
+    let op : Op := if conf then { op0 with cfg := { lower := true } } else { op0 with cfg := { op0.cfg with fromArray := false } }
+    let mode := if reader then mode ++ "(Reader)" else mode
+    let keyEq : Str → Str → Bool := if conf then (fun a b => lower a == lower b) else (· == ·)
+    match l.obs with
+    | "PANIC" :: _ => (r.violation sec l.idx s!"panic op=[{joinSp l.op}] impl=[{joinSp l.obs}]")
+    | "D" :: "none" :: "R" :: rest =>
+      -- the front end refused the text (a number outside its range, a top level that is not an object, …): the
+      -- unmarshaller must refuse too
+      let r := { r with ops := r.ops + 1 }
+      let r := (r.addCover mode).addCover "frontend-refused-the-text"
+      if rest = ["err", "convert"] then r
+      else r.violation sec l.idx s!"accepted-although-the-front-end-refused op=[{joinSp l.op}] impl=[{joinSp l.obs}]"
+    | "D" :: dt =>
+      match parseJT (dt.length + 1) dt with
+      | some (doc, "R" :: obs) =>
+        let nullDoc := conf && (match op.input, doc with | .null, .obj [] => true | _, _ => false)
+        -- the model of the front end: YAML hands a null on as the empty string (`Model.yamlNulls true`; a documented domain
+        -- restriction of the converse clause, Props.yaml_null_witness), JSON and TOML hand the document on as it is
+        let expected := if yaml then yamlNulls true op.input else op.input
+        let r := if nullDoc then r.addCover "conf-null-document-is-the-empty-configuration"
+          else if docEquiv keyEq expected doc then
+            (if yaml && !(docEquiv (· == ·) op.input expected) then
+               r.addCover "frontend-yaml-null-is-empty-string(outside-domain)"
+             else r.addCover "frontend-document-equivalent")
+          else if yaml && docEquiv keyEq op.input doc then
+            r.mismatch sec l.idx "yaml-null-is-the-empty-string" s!"the YAML front end kept a null: {joinSp l.obs}"
+          else r.violation sec l.idx s!"front-end-changed-the-supplied-values op=[{joinSp l.op}] impl=[{joinSp l.obs}]"
+        let r := if conf && !(docEquiv (· == ·) expected doc) then r.addCover "conf-keys-lowered" else r
+        let r := if conf && !(confKeysLowered (jSize doc + 2) op.ty doc) then
+            r.violation sec l.idx s!"conf-field-key-not-lowered op=[{joinSp l.op}] impl=[{joinSp l.obs}]"
+          else r
+        runU r sec l { op with input := doc } mode obs
+      | _ => r.mismatch sec l.idx "unparsable-observation" (joinSp l.obs)
+    | _ => r.mismatch sec l.idx "unparsable-observation" (joinSp l.obs)
+
+/-! ### `p`: one request through `httpx.Parse`; `pp` / `pf` / `ph` / `pj`: the same request through `ParsePath` /
+`ParseForm` / `ParseHeaders` (→ `encoding.ParseHeaders`) / `ParseJsonBody` alone
+  p T { Name ty t:<key>|<tag value> … } P { k s:v … } F { k [ s:v … ] … } H { k [ s:v … ] | k null … } B <json value | none>
+A header / form key may carry zero values: `k [ ]` (empty slice) or `k null` (nil slice). -/
 
 structure POp where
   fs : Fields
   p : Obj
   f : List (Str × List Str)
-  h : List (Str × List Str)
+  h : List (Str × HVals)
   b : Option J
 
 def strOf : J → Option Str
   | .str s => some s
   | _ => none
 
+/-- form values: a nil and an empty value list are the same to `GetFormValues` (nothing left after filtering) -/
 def multiOf : Obj → Option (List (Str × List Str))
   | [] => some []
   | (k, .arr l) :: rest =>
     match l.mapM strOf, multiOf rest with
     | some vs, some r => some ((k, vs) :: r)
     | _, _ => none
+  | (k, .null) :: rest => (multiOf rest).map fun r => (k, []) :: r
+  | _ => none
+
+def hmultiOf : Obj → Option (List (Str × HVals))
+  | [] => some []
+  | (k, .arr l) :: rest =>
+    match l.mapM strOf, hmultiOf rest with
+    | some vs, some r => some ((k, some vs) :: r)
+    | _, _ => none
+  | (k, .null) :: rest => (hmultiOf rest).map fun r => (k, none) :: r
   | _ => none
 
 def parsePOp (toks : List String) : Option POp :=
   match toks with
-  | "p" :: "T" :: rest =>
+  | _ :: "T" :: rest =>
     match parseTyT (rest.length + 1) rest with
     | some (.struct fs, "P" :: r1) =>
       match parseJT (r1.length + 1) r1 with
@@ -365,7 +497,7 @@ def parsePOp (toks : List String) : Option POp :=
         | some (.obj f, "H" :: r3) =>
           match parseJT (r3.length + 1) r3 with
           | some (.obj h, "B" :: r4) =>
-            match multiOf f, multiOf h with
+            match multiOf f, hmultiOf h with
             | some f', some h' =>
               if r4 = ["none"] then some { fs := fs, p := p, f := f', h := h', b := none }
               else match parseJT (r4.length + 1) r4 with
@@ -389,12 +521,46 @@ def keyCover : Fields → List String
   | .nil => []
   | .cons _ tag t rest => ("http-field-" ++ String.ofList (fieldKeyOf tag)) :: (tyFeatures t ++ keyCover rest)
 
+/-- which of the four unmarshalers an op runs -/
+structure Sel where
+  path : Bool
+  form : Bool
+  header : Bool
+  json : Bool
+
+def selOf : String → Option (Sel × String)
+  | "p" => some (⟨true, true, true, true⟩, "httpx.Parse")
+  | "pp" => some (⟨true, false, false, false⟩, "httpx.ParsePath")
+  | "pf" => some (⟨false, true, false, false⟩, "httpx.ParseForm")
+  | "ph" => some (⟨false, false, true, false⟩, "httpx.ParseHeaders")
+  | "pj" => some (⟨false, false, false, true⟩, "httpx.ParseJsonBody")
+  | _ => none
+
+/-- the model of one of `ParsePath` / `ParseForm` / `ParseHeaders` / `ParseJsonBody` alone: the fields of the other
+tag keys stay untouched; all four = `httpParse` -/
+def httpParseSel (sel : Sel) (op : POp) : Except Err VFields :=
+  if sel.path && sel.form && sel.header && sel.json then httpParse false op.fs op.p op.f op.h op.b
+  else
+    let part (run : Bool) (key : String) (x : Except Err VFields) : Except Err VFields :=
+      if run then x else .ok (zeroFields (viewFields key.toList op.fs))
+    match part sel.path "path" (httpParsePath false op.fs op.p) with
+    | .error e => .error e
+    | .ok v1 =>
+      match part sel.form "form" (httpParseForm false op.fs op.f) with
+      | .error e => .error e
+      | .ok v2 =>
+        match part sel.header "header" (httpParseHeaders false op.fs op.h) with
+        | .error e => .error e
+        | .ok v3 =>
+          match part sel.json "json" (httpParseJsonBody false op.fs op.b) with
+          | .error e => .error e
+          | .ok v4 => .ok (mergeViews op.fs v1 v2 v3 v4)
+
 def runPLine (r : Report) (sec : Nat) (l : Line) : Report :=
-  match parsePOp l.op with
-  | none => r.mismatch sec l.idx "bad-op" (joinSp l.op)
-  | some op => Id.run do
+  match (l.op.head?.bind selOf), parsePOp l.op with
+  | some (sel, fname), some op => Id.run do
     let mut r := { r with ops := r.ops + 1 }
-    let res := httpParse false op.fs op.p op.f op.h op.b
+    let res := httpParseSel sel op
     let vp := viewFields "path".toList op.fs
     let vf := viewFields "form".toList op.fs
     let vh := viewFields "header".toList op.fs
@@ -402,18 +568,26 @@ def runPLine (r : Report) (sec : Nat) (l : Line) : Report :=
     let fObj := formParams op.f
     let hObj := headerParams op.h
     let body := op.b.getD (.obj [])
-    r := r.addCover "mode-httpx.Parse"
+    r := r.addCover ("mode-" ++ fname)
     r := r.addCover (match res with | .ok _ => "http-accept" | .error e => "http-reject-" ++ e.name)
     for f in dedup (keyCover op.fs) do r := r.addCover f
     if op.b.isSome then r := r.addCover "http-json-body"
     if op.f.any (fun kv => kv.2.length > 1) then r := r.addCover "http-form-multi-valued"
     if op.f.any (fun kv => kv.2.any (·.isEmpty)) then r := r.addCover "http-form-empty-value"
-    if op.h.any (fun kv => kv.2.length > 1) then r := r.addCover "http-header-multi-valued"
-    for f in dedup (inputFeatures (httpCfgPath false) vp op.p ++ inputFeatures (httpCfgForm false) vf fObj
-        ++ inputFeatures (httpCfgHeader false) vh hObj
-        ++ (match body with | .obj m => inputFeatures (httpCfgJson false) vj m | _ => [])) do r := r.addCover f
-    let cmpl := Spec.okFields (httpCfgPath false) vp op.p && Spec.okFields (httpCfgForm false) vf fObj
-      && Spec.okFields (httpCfgHeader false) vh hObj && Spec.complete (httpCfgJson false) (.struct vj) body
+    if op.f.any (fun kv => kv.2.isEmpty) then r := r.addCover "http-form-zero-values"
+    if op.h.any (fun kv => kv.2.len > 1) then r := r.addCover "http-header-multi-valued"
+    if op.h.any (fun kv => kv.2 == some []) then r := r.addCover "http-header-zero-values(empty-slice)"
+    if op.h.any (fun kv => kv.2 == none) then r := r.addCover "http-header-zero-values(nil-slice)"
+    if op.h.any (fun kv => (kv.2.getD []).any (·.isEmpty)) then r := r.addCover "http-header-empty-string"
+    if op.p.any (fun kv => match kv.2 with | .str [] => true | _ => false) then r := r.addCover "http-path-empty-string"
+    for f in dedup ((if sel.path then inputFeatures (httpCfgPath false) vp op.p else [])
+        ++ (if sel.form then inputFeatures (httpCfgForm false) vf fObj else [])
+        ++ (if sel.header then inputFeatures (httpCfgHeader false) vh hObj else [])
+        ++ (match sel.json, body with | true, .obj m => inputFeatures (httpCfgJson false) vj m | _, _ => [])) do r := r.addCover f
+    let cmpl := (!sel.path || Spec.okFields (httpCfgPath false) vp op.p)
+      && (!sel.form || Spec.okFields (httpCfgForm false) vf fObj)
+      && (!sel.header || Spec.okFields (httpCfgHeader false) vh hObj)
+      && (!sel.json || Spec.complete (httpCfgJson false) (.struct vj) body)
     let outside := match res with | .error .outside => true | _ => false
     if outside then r := r.addCover "model-outside(panic-monitor-only)"
     let impl := joinSp l.obs
@@ -423,10 +597,12 @@ def runPLine (r : Report) (sec : Nat) (l : Line) : Report :=
       | some (.struct vs, []) =>
         if !outside then
           r := r.addCover (if cmpl then "accepted-and-complete" else "accepted-not-complete")
-          let sat := Spec.satFields (httpCfgPath false) vp op.p (viewVals "path".toList op.fs vs)
-            && Spec.satFields (httpCfgForm false) vf fObj (viewVals "form".toList op.fs vs)
-            && Spec.satFields (httpCfgHeader false) vh hObj (viewVals "header".toList op.fs vs)
-            && Spec.satisfies (httpCfgJson false) (.struct vj) body (.struct (viewVals "json".toList op.fs vs))
+          let part (run : Bool) (key : String) (fsv : Fields) (ok : VFields → Bool) : Bool :=
+            if run then ok (viewVals key.toList op.fs vs) else Spec.isZeroFields fsv (viewVals key.toList op.fs vs)
+          let sat := part sel.path "path" vp (Spec.satFields (httpCfgPath false) vp op.p)
+            && part sel.form "form" vf (Spec.satFields (httpCfgForm false) vf fObj)
+            && part sel.header "header" vh (Spec.satFields (httpCfgHeader false) vh hObj)
+            && part sel.json "json" vj (fun v => Spec.satisfies (httpCfgJson false) (.struct vj) body (.struct v))
           if !sat then
             r := r.violation sec l.idx s!"accepted-but-constraints-violated op=[{joinSp l.op}] impl=[{impl}]"
           match res with
@@ -448,9 +624,178 @@ def runPLine (r : Report) (sec : Nat) (l : Line) : Report :=
       r := r.violation sec l.idx s!"panic op=[{joinSp l.op}] impl=[{impl}]"
     | _ => r := r.mismatch sec l.idx "unparsable-observation" impl
     return r
+  | _, _ => r.mismatch sec l.idx "bad-op" (joinSp l.op)
+
+/-! ### `um`: one struct type carrying a `json` and a `form` tag on every field, read by the unmarshaler of one of the keys -/
+
+def keyPart (tv : Str) : Str := tv.takeWhile (· ≠ ',')
+
+mutual
+/-- the type as the `form` unmarshaler reads it: the bare key, no options -/
+def formViewTy : Ty → Ty
+  | .prim k => .prim k
+  | .ptr t => .ptr (formViewTy t)
+  | .slice t => .slice (formViewTy t)
+  | .map t => .map (formViewTy t)
+  | .struct fs => .struct (formViewFields fs)
+def formViewFields : Fields → Fields
+  | .nil => .nil
+  | .cons n tag t rest =>
+    .cons n (match tag with | some [] => some [] | some tv => some (keyPart tv) | none => none) (formViewTy t) (formViewFields rest)
+end
+
+mutual
+/-- some nested struct type is "required" under one tag key and not under the other: the place where a cache keyed by the
+type alone (structRequiredCache) hands one unmarshaler the other's answer -/
+def requiredDiffersTy : Ty → Ty → Bool
+  | .ptr a, .ptr b => requiredDiffersTy a b
+  | .slice a, .slice b => requiredDiffersTy a b
+  | .map a, .map b => requiredDiffersTy a b
+  | .struct a, .struct b =>
+    (match structRequired a, structRequired b with
+     | .ok x, .ok y => x != y
+     | .error _, .error _ => false
+     | _, _ => true) || requiredDiffersFields a b
+  | _, _ => false
+def requiredDiffersFields : Fields → Fields → Bool
+  | .cons _ _ t r, .cons _ _ t' r' => requiredDiffersTy t t' || requiredDiffersFields r r'
+  | _, _ => false
+end
+
+def runMLine (r : Report) (sec : Nat) (l : Line) : Report :=
+  match parseOp l.op with
+  | none => r.mismatch sec l.idx "bad-op" (joinSp l.op)
+  | some op0 =>
+    let form := kvStr (l.op.take 4) "key" = "form"
+    let op : Op := { op0 with cfg := {}, ty := if form then formViewTy op0.ty else op0.ty }
+    let other : Ty := if form then op0.ty else formViewTy op0.ty
+    let mode := if form then "mode-two-keys(form)" else "mode-two-keys(json)"
+    -- whether a nested struct needs a value is cached per (tag key, type) since a8b007f; before, the cache was keyed by
+    -- the type alone and the verdict followed whichever unmarshaler saw the type first (Props.structRequiredCache_witness):
+    -- such a history dependence shows here as rejected-but-constraints-met / accepted-but-constraints-violated / mismatch
+    let r := if requiredDiffersTy op.ty other then r.addCover "two-keys-required-differs" else r
+    runU r sec l op mode l.obs
+
+/-! ### `v`: lookups through the valuers of core/mapping/valuer.go on a chain of nested objects
+  v C [ {current} {parent} {grandparent} … ] Q [ s:r.<key> | s:s.<key> … ]  =>  found <value> | absent ; …
+`r.` = `recursiveValuer` (a field tagged `inherit`), `s.` = `simpleValuer`; the queries run in order on the same maps (the
+merge of an inherited object is kept in the current node). -/
+
+def jTokens : Nat → J → String
+  | 0, _ => "?"
+  | fuel + 1, j =>
+    match j with
+    | .null => "null"
+    | .bool b => if b then "true" else "false"
+    | .num s => "n:" ++ String.ofList s
+    | .str s => "s:" ++ String.ofList s
+    | .arr l => "[ " ++ String.join (l.map fun x => jTokens fuel x ++ " ") ++ "]"
+    | .obj m => "{ " ++ String.join ((canonObj m).map fun kv => String.ofList kv.1 ++ " " ++ jTokens fuel kv.2 ++ " ") ++ "}"
+
+def splitOnTok (sep : String) : List String → List (List String)
+  | [] => [[]]
+  | t :: rest =>
+    match splitOnTok sep rest with
+    | [] => [[]]
+    | h :: tl => if t = sep then [] :: h :: tl else (t :: h) :: tl
+
+def objsOf : List J → Option (List Obj)
+  | [] => some []
+  | .obj m :: rest => (objsOf rest).map (m :: ·)
+  | _ => none
+
+def runVLine (r : Report) (sec : Nat) (l : Line) : Report :=
+  match l.op with
+  | "v" :: "C" :: rest =>
+    match parseJT (rest.length + 1) rest with
+    | some (.arr cl, "Q" :: r2) =>
+      match objsOf cl, parseJT (r2.length + 1) r2 with
+      | some ch0, some (.arr ql, []) => Id.run do
+        let mut r := { r with ops := r.ops + 1 }
+        r := r.addCover "mode-valuer"
+        r := r.addCover s!"valuer-chain-depth-{ch0.length}"
+        match l.obs with
+        | "PANIC" :: _ => return r.violation sec l.idx s!"panic op=[{joinSp l.op}] impl=[{joinSp l.obs}]"
+        | _ => pure ()
+        let answers := splitOnTok ";" l.obs
+        if answers.length ≠ ql.length then return r.mismatch sec l.idx "answer-count" (joinSp l.obs)
+        let mut ch := ch0
+        for (q, ans) in ql.zip answers do
+          match q with
+          | .str (kind :: '.' :: key) =>
+            let rec_ : Bool := kind = 'r'
+            let mres : Option J := if rec_ then (recValueM ch key).1 else simpleValue ch key
+            let boundInChain := ch.any (hasKey key ·)
+            let boundInCurrent := match ch with | cur :: _ => hasKey key cur | [] => false
+            let nearest : Option J := (ch.filterMap (getKey key ·)).head?
+            let expected := match mres with
+              | some j => "found " ++ jTokens (jSize j + 1) j
+              | none => "absent"
+            r := r.addCover (if rec_ then "valuer-recursive-lookup" else "valuer-simple-lookup")
+            if rec_ then
+              match getKey key (ch.headD []), mres with
+              | none, some _ => r := r.addCover "valuer-inherited-from-ancestor"
+              | some (.obj _), some (.obj m) =>
+                if (match (recValueM (ch.drop 1) key).1 with | some (.obj _) => true | _ => false) then
+                  r := r.addCover "valuer-objects-merged"
+                else if m.isEmpty then pure () else pure ()
+              | _, _ => pure ()
+            else if boundInChain && !boundInCurrent then r := r.addCover "valuer-simple-ignores-ancestors"
+            -- monitor (on the implementation's own answer): found iff bound where the valuer may look; a binding that
+            -- is not an object is handed over as the nearest node binds it (the supplied value, unchanged)
+            let found : Bool := ans.head? = some "found"
+            let shouldFind : Bool := if rec_ then boundInChain else boundInCurrent
+            if found ≠ shouldFind then
+              r := r.violation sec l.idx s!"valuer-lookup-wrong(found={found},bound={shouldFind}) key={String.ofList key} op=[{joinSp l.op}] impl=[{joinSp l.obs}]"
+            else match nearest with
+              | some (.obj vm) =>
+                -- an object: every binding the nearest node supplies under this key is handed over unchanged; with
+                -- `inherit` the keys it does not bind come from the nearest ancestor object that binds them
+                if found then
+                  match parseJT (ans.length + 1) (ans.drop 1) with
+                  | some (.obj res, []) =>
+                    let own := (canonObj vm).all fun kv =>
+                      match getKey kv.1 res with
+                      | some x => jTokens (jSize x + 1) x == jTokens (jSize kv.2 + 1) kv.2
+                      | none => false
+                    let inherited : Bool := !rec_ || ((ch.drop 1).filterMap (getKey key ·)).all fun pj =>
+                      match pj with
+                      | .obj pm => (canonObj pm).all fun kv => hasKey kv.1 res
+                      | _ => true
+                    let nothingElse := (canonObj res).all fun kv =>
+                      hasKey kv.1 vm || (rec_ && ((ch.drop 1).filterMap (getKey key ·)).any fun pj =>
+                        match pj with | .obj pm => hasKey kv.1 pm | _ => false)
+                    if !own then
+                      r := r.violation sec l.idx s!"valuer-lookup-wrong(a supplied binding of the object was replaced or lost) key={String.ofList key} op=[{joinSp l.op}] impl=[{joinSp l.obs}]"
+                    else if !nothingElse then
+                      r := r.violation sec l.idx s!"valuer-lookup-wrong(a binding that nobody supplied) key={String.ofList key} op=[{joinSp l.op}] impl=[{joinSp l.obs}]"
+                    else if !inherited then r := r.addCover "valuer-inheritance-stops-at-a-non-object"
+                  | _ =>
+                    r := r.violation sec l.idx s!"valuer-lookup-wrong(an object was supplied, something else handed over) key={String.ofList key} op=[{joinSp l.op}] impl=[{joinSp l.obs}]"
+              | some j =>
+                if found && joinSp ans ≠ "found " ++ jTokens (jSize j + 1) j then
+                  r := r.violation sec l.idx s!"valuer-lookup-wrong(value of the nearest binding changed) key={String.ofList key} op=[{joinSp l.op}] impl=[{joinSp l.obs}]"
+              | none => pure ()
+            if joinSp ans ≠ expected then r := r.mismatch sec l.idx expected (joinSp ans)
+            if rec_ then ch := (recValueM ch key).2
+          | _ => r := r.mismatch sec l.idx "bad-query" (joinSp l.op)
+        return r
+      | _, _ => r.mismatch sec l.idx "bad-op" (joinSp l.op)
+    | _ => r.mismatch sec l.idx "bad-op" (joinSp l.op)
+  | _ => r.mismatch sec l.idx "bad-op" (joinSp l.op)
 
 def runSection (r : Report) (s : Section) : Report :=
-  s.lines.foldl (fun r l => if l.op.head? = some "p" then runPLine r s.idx l else runLine r s.idx l) r
+  s.lines.foldl (fun r l => if (l.op.head?.bind selOf).isSome then runPLine r s.idx l
+    else if l.op.head? = some "uy" then runFrontEnd r s.idx l "mode-yaml(UnmarshalYamlBytes)" false true
+    else if l.op.head? = some "ut" then runFrontEnd r s.idx l "mode-toml(UnmarshalTomlBytes)" false false
+    else if l.op.head? = some "c" then
+      let fmt := kvStr (l.op.take 4) "fmt"
+      let via := kvStr (l.op.take 4) "via"
+      runFrontEnd r s.idx l s!"mode-conf({if via = "file" then "Load:" else if via = "cfgfile" then "LoadConfig:" else if via = "alias" then "LoadConfigFrom…Bytes:" else "LoadFrom…Bytes:"}{fmt})" true (fmt = "yaml")
+    else if l.op.head? = some "v" then runVLine r s.idx l
+    else if l.op.head? = some "um" then runMLine r s.idx l
+    else if l.op.head? = some "u" then runLine r s.idx l
+    else r.mismatch s.idx l.idx "bad-op" (joinSp l.op)) r
 
 def driver (secs : List Section) : Report := secs.foldl runSection {}
 
